@@ -77,8 +77,15 @@ func convertMap(v, w reflect.Value) error {
 	if v.Kind() != reflect.Map {
 		return fmt.Errorf("not a map: %v", v)
 	}
-	if v.IsNil() {
+	if v.CanSet() {
+		// the destination may hold entries already (a reply
+		// variable used twice, default values): they are not
+		// part of the converted value.
 		v.Set(reflect.MakeMapWithSize(v.Type(), l))
+	} else {
+		for _, k := range v.MapKeys() {
+			v.SetMapIndex(k, reflect.Value{})
+		}
 	}
 	for _, k := range w.MapKeys() {
 		key := reflect.New(v.Type().Key())
